@@ -30,6 +30,11 @@ type GenConfig struct {
 	Templates bool // template parameters, predicates, arguments
 	LAFlags   bool // %lookahead flags (clean leading shapes are enforced)
 
+	// CollidingSets injects, into about every third grammar, two or three in-rule
+	// sets that differ only in the placement of parentheses (so that names built
+	// by flattening the expression coincide) but denote different terminal sets.
+	CollidingSets bool
+
 	HasError   bool
 	ModelOnly  bool // only what syntax.Model can carry without the loader (no sets, no opt refs, no commands)
 	RRLists    bool
@@ -138,8 +143,112 @@ func Generate(r *rand.Rand, cfg *GenConfig) *Grammar {
 	if x.laClean {
 		x.addLAArgs()
 	}
+	if cfg.CollidingSets && r.Intn(3) == 0 {
+		x.collidingSets()
+	}
 	g.Finish()
 	return g
+}
+
+// collidingSets builds one flat operand/operator sequence, e.g. ~ a | b & c,
+// and bracketings of it with different values, e.g. ~(a | b) & c and ~a | (b & c),
+// and appends them as in-rule sets to random alternatives.
+func (x *gen) collidingSets() {
+	g, r, cfg := x.g, x.r, x.cfg
+	for attempt := 0; attempt < 20; attempt++ {
+		k := 2 + r.Intn(3)
+		leaves := make([]*SetExpr, k)
+		not := make([]bool, k)
+		ops := make([]SetOp, k-1)
+		for i := range leaves {
+			l := &SetExpr{Op: SAny, IsTerm: true, Sym: r.Intn(len(g.Terms))}
+			if cfg.FullSets && r.Intn(2) == 0 {
+				l.Op = []SetOp{SFirst, SLast, SPrecede, SFollow, SAny}[r.Intn(5)]
+				if r.Intn(2) == 0 && !cfg.Templates {
+					l.IsTerm = false
+					l.Sym = r.Intn(len(g.Nonterms))
+				}
+			}
+			leaves[i] = l
+			not[i] = r.Intn(3) == 0
+		}
+		if !not[0] && r.Intn(2) == 0 {
+			not[0] = true
+		}
+		for i := range ops {
+			ops[i] = []SetOp{SUnion, SUnion, SInter}[r.Intn(3)]
+		}
+		var build func(lo, hi int, pending bool) *SetExpr
+		build = func(lo, hi int, pending bool) *SetExpr {
+			// pending: the complement sign in front of leaf lo has not been placed yet
+			if pending && (lo == hi || r.Intn(2) == 0) {
+				return &SetExpr{Op: SCompl, Sub: []*SetExpr{build(lo, hi, false)}}
+			}
+			if lo == hi {
+				c := *leaves[lo]
+				return &c
+			}
+			j := lo + r.Intn(hi-lo)
+			return &SetExpr{Op: ops[j], Sub: []*SetExpr{build(lo, j, pending), build(j+1, hi, not[j+1])}}
+		}
+		var picked []*SetExpr
+		var texts []string
+		for t := 0; t < 12 && len(picked) < 2+r.Intn(2); t++ {
+			e := build(0, k-1, not[0])
+			text := setText(g, e)
+			dup := false
+			for _, o := range texts {
+				dup = dup || o == text
+			}
+			if dup {
+				continue
+			}
+			if !cfg.FullSets {
+				v := EvalTermSet(g, e)
+				same := v == 0
+				for _, o := range picked {
+					same = same || EvalTermSet(g, o) == v
+				}
+				if same {
+					continue
+				}
+			}
+			picked = append(picked, e)
+			texts = append(texts, text)
+		}
+		if len(picked) < 2 {
+			continue
+		}
+		var hosts []*Alt
+		for _, nt := range g.Nonterms {
+			if IsTopSet(nt) {
+				continue
+			}
+			hosts = append(hosts, nt.Alts...)
+		}
+		if len(hosts) == 0 {
+			return
+		}
+		for _, e := range picked {
+			a := hosts[r.Intn(len(hosts))]
+			part := &Expr{Kind: KSet, Set: e}
+			if x.laClean || len(a.Parts) == 0 {
+				a.Parts = append(a.Parts, part)
+			} else {
+				at := r.Intn(len(a.Parts) + 1)
+				a.Parts = append(a.Parts[:at:at], append([]*Expr{part}, a.Parts[at:]...)...)
+			}
+			a.EmptyMark = false
+		}
+		g.Colliding = len(picked)
+		return
+	}
+}
+
+func setText(g *Grammar, e *SetExpr) string {
+	pr := &printer{g: g, p: &Printed{}}
+	pr.setExpr(e, 0)
+	return pr.b.String()
 }
 
 func (x *gen) isInput(i int) bool {
